@@ -1013,6 +1013,6 @@ MANIFEST = dict(
          "operands, the constant that walk_div folds equals the exact quotient (decided on an IEEE-754-exact model of the float arithmetic the function performs; "
          "counterexamples replayed on the real Simplifier). (3) The exists-elimination skeletons (x = t and phi, two variables, nested, sub-typed) satisfy the same assertions.",
     note="Trusted: vf/exprsem.py as the meaning of expressions, CrossHair's int model, z3 (Int/Real/FloatingPoint), the shims S2' S7 S8 listed in ASSUMPTIONS. "
-         "Defects found on the pinned tree are listed in known_findings.txt (walk_div float rounding above 2**53; walk_exists: self-referential equality, sub-typed variable, "
-         "variable capture, result not re-simplified; walk_minus result not flattened). Outside: deeper expressions, temporal operators, real constants with symbolic denominators.",
+         "Defects found on the snapshot and since repaired in /repo (scratch/fixes/C11-*.md): walk_div float rounding above 2**53; walk_exists: self-referential equality, "
+         "sub-typed variable, variable capture, result not re-simplified; walk_minus result not flattened. Outside: deeper expressions, temporal operators, real constants with symbolic denominators.",
 )
